@@ -131,6 +131,8 @@ class Monitor:
         mm = self.mm[market.market_id]
         mm.exp_this_tick = []
         self.inflight = {"k": "tick", "m": market.market_id}
+        for p in self.plugins:
+            p.pre_tick(self, market)
 
     def post_tick(self, market) -> None:
         """after Market._update_time returned (storage extended, prices carried)."""
@@ -209,6 +211,7 @@ class Monitor:
         o.n_exp += 1
         if o.status != "live":
             self.viol("C04", "expiry_of_dead_order", {"market": mm.name, "order": o.brief(), "time": log.time})
+            self.viol("C10", "expiry_record_without_expiry", {"market": mm.name, "order": o.brief(), "time": log.time})
             return
         if o.ttl is None or log.time != o.placed_at + o.ttl + 1:
             self.viol("C04", "expiry_wrong_time", {"market": mm.name, "order": o.brief(), "time": log.time})
@@ -979,6 +982,6 @@ def _noop(self, *a, **k):
     return None
 
 
-for _n in ("setup_failed", "on_probe_altered", "on_written", "on_step_record", "on_processed", "on_consult", "on_returned", "on_callback",
+for _n in ("pre_tick", "setup_failed", "on_probe_altered", "on_written", "on_step_record", "on_processed", "on_consult", "on_returned", "on_callback",
            "on_tap", "on_probe_call"):
     setattr(Plugin, _n, _noop)
